@@ -24,23 +24,30 @@ fn full_word_from_id() {
 
 use alice_protocol_reader::prelude::*;
 
-static mut CHECK_CALLS: u32 = 0;
-static mut CHECK_ORDER_OK: bool = true;
-static mut CHECK_BASE: usize = 0;
-static mut CHECK_STRIDE: usize = 10;
+// one static with a unique marker (Kani 0.68 aliases zero-initialised 8-byte statics with the std constant
+// RawVec::ZERO_CAP, see support.rs; with separate `static mut CHECK_BASE: usize = 0` this harness reported
+// spurious `__rust_dealloc` failures for every payload without trailing 0xFF)
+struct CheckRec {
+    marker: u64,
+    calls: u32,
+    order_ok: bool,
+    base: usize,
+    stride: usize,
+}
+static mut CK: CheckRec = CheckRec { marker: 0x5EED_0000_0000_0003, calls: 0, order_ok: true, base: 0, stride: 10 };
 
 /// stand-in for CdpRunningValidator::check (its dispatch is proved in Verus unit v_dispatch, its handlers in
 /// Kani full_handler_*): records that the k-th call got the 10 bytes at payload offset k * slot size
 fn stub_check<T: RDH, C: ChecksOpt + FilterOpt + CustomChecksOpt>(_v: &mut CdpRunningValidator<T, C>, gbt_word: &[u8]) {
     unsafe {
-        if gbt_word.len() != 10 || gbt_word.as_ptr() as usize != CHECK_BASE + CHECK_CALLS as usize * CHECK_STRIDE {
-            CHECK_ORDER_OK = false;
+        if gbt_word.len() != 10 || gbt_word.as_ptr() as usize != CK.base + CK.calls as usize * CK.stride {
+            CK.order_ok = false;
         }
-        CHECK_CALLS += 1;
+        CK.calls += 1;
     }
 }
 
-// @harness id=bnd40_do_payload_checks_ok props=C12,C01,C07,C04 kind=bnd tier=quick bound=payload<=40B,padding<=3B fns=do_payload_checks,preprocess_payload,CdpRunningValidator::set_current_rdh stubs=alloc::fmt::format,flume::Sender::send,CdpRunningValidator::check
+// @harness id=bnd40_do_payload_checks_ok props=C12,C01,C07,C04 kind=bnd tier=quick bound=payload<=40B fns=do_payload_checks,preprocess_payload,CdpRunningValidator::set_current_rdh stubs=alloc::fmt::format,flume::Sender::send,CdpRunningValidator::check
 // Every word of an accepted payload is handed to the validator exactly once, in order, as the 10 bytes at
 // its slot; padding is never a word.
 #[kani::proof]
@@ -70,7 +77,7 @@ fn do_payload_checks_case(error_path: bool) {
     let s = fake_sender();
     // validator whose FSM is in the middle of a split packet (state c_IHW), i.e. not the initial state
     let mut v = crate::analyze::validators::its::cdp_running::verif_cdp_running::validator_in(5, true, None, &rb, 64, 0);
-    unsafe { CHECK_CALLS = 0; CHECK_ORDER_OK = true; }
+    unsafe { CK.calls = 0; CK.order_ok = true; }
     let data: [u8; 40] = kani::any();
     let len: usize = kani::any();
     kani::assume(len >= 1 && len <= 40);
@@ -81,22 +88,17 @@ fn do_payload_checks_case(error_path: bool) {
         run += 1;
     }
     let v0 = len >= 16 && p[10] == 0 && p[11] == 0 && p[12] == 0 && p[13] == 0 && p[14] == 0 && p[15] == 0;
-    kani::assume(!v0 || error_path); // 16-byte slot chunking: full_chunkify / full_detect_format
     kani::assume((run > 15) == error_path);
-    // composition harness: padding runs up to 3 bytes in the accepted case. With a longer run the padding vector
-    // (Vec<&u8>) is reallocated and CBMC reports a dealloc-size failure that appears only together with the
-    // `check` stub (the same code with runs up to 15 passes in bnd40_preprocess_general); larger paddings are
-    // covered by full_chunkify, bnd40_ff_padding and bnd40_preprocess_general.
-    kani::assume(error_path || run <= 3);
-    // word-aligned payloads only: a format-2 payload whose length is not a multiple of 10 (after cutting 10..15
-    // padding bytes) trips debug_assert!s in chunkify_payload in debug builds (known finding, see nopanic harness)
-    kani::assume(v0 || error_path || (if run > 9 { (len - run) % 10 == 0 } else { len % 10 <= run }));
-    unsafe { CHECK_BASE = p.as_ptr() as usize; CHECK_STRIDE = if v0 { 16 } else { 10 }; }
+    // slot-aligned payloads only: a payload whose length is not a whole number of slots (after the padding rule)
+    // trips debug_assert!s in chunkify_payload. Kani builds with debug assertions; the shipped binary (release
+    // profile, C04 `state`) has none, so those are not obligations of C04. Unaligned lengths: full_chunkify.
+    kani::assume(error_path || (if v0 { len % 16 == 0 } else if run > 9 { (len - run) % 10 == 0 } else { len % 10 <= run }));
+    unsafe { CK.base = p.as_ptr() as usize; CK.stride = if v0 { 16 } else { 10 }; }
     let pos: u64 = kani::any();
     kani::assume(pos < (1 << 62));
     let r = do_payload_checks((&rdh, p, pos), &s, &mut v);
     assert!(r.is_ok(), "[C12] payload checks do not fail the link");
-    let calls = unsafe { CHECK_CALLS } as usize;
+    let calls = unsafe { CK.calls } as usize;
     if run > 15 {
         assert!(calls == 0, "[C12] a payload ending in more than 15 bytes of 0xFF is skipped: no word is examined");
         assert!(sent_errors() == 1 && sent_total() == 1, "[C12][C02] the over-long padding is reported exactly once");
@@ -105,7 +107,7 @@ fn do_payload_checks_case(error_path: bool) {
         assert!(sent_total() == 0, "[C12][C01] an accepted payload is not reported by the chunking stage");
         let expect = if v0 { len / 16 } else if run > 9 { (len - run) / 10 } else { len / 10 };
         assert!(calls == expect, "[C12] every word is examined exactly once; padding is never a word");
-        assert!(unsafe { CHECK_ORDER_OK }, "[C12][C07] the k-th word examined is the 10 bytes at slot k of the payload");
+        assert!(unsafe { CK.order_ok }, "[C12][C07] the k-th word examined is the 10 bytes at slot k of the payload");
     }
     kani::cover!(calls == 3 || error_path);
     core::mem::forget(v);
